@@ -394,7 +394,9 @@ def standin(tier, seed):
         except ValueError:
             pass
     # ---- is_valid_ip
-    good = ["1.2.3.4", "0.0.0.0", "255.255.255.255", "127.0.0.1", "::", "::1", "2001:db8::1", "::ffff:1.2.3.4", "fe80::1", "2001:0db8:0000:0000:0000:0000:0000:0001", "1:2:3:4:5:6:7:8"]
+    good = ["1.2.3.4", "0.0.0.0", "255.255.255.255", "127.0.0.1", "::", "::1", "2001:db8::1", "::ffff:1.2.3.4", "fe80::1", "2001:0db8:0000:0000:0000:0000:0000:0001", "1:2:3:4:5:6:7:8",
+            # the longest spellings: uncompressed with a dotted-quad tail (up to 45 characters)
+            "0000:0000:0000:0000:0000:ffff:192.168.100.100", "2001:0db8:0000:0000:0000:0000:255.255.255.255", "0000:0000:0000:0000:0000:0000:1.2.3.4", "ffff:ffff:ffff:ffff:ffff:ffff:ffff:ffff"]
     bad = ["", " ", "a", "example.com", "localhost", "1.2.3.4\x00", "\x001.2.3.4", "\x00", "1.2.3.256", "1.2.3.4.5", "1.2.3.4 ", " 1.2.3.4", "1.2.3.4\n", "12345::1", "1::2::3", ":::", "[::1]", "1.2.3.4:80",
            "\xb9.\xb2.\xb3.4", "１.２.３.４", "1。2。3。4", "٣.٣.٣.٣", "x" * 100, "a" * 64 + ".com", "1.2.3.4,5.6.7.8", "::1%", '::1%"x"', "http://1.2.3.4"]
     for s in good:
